@@ -128,7 +128,8 @@ def counted(ln):
 class Ref:
     """One translation unit processed by the reference preprocessor."""
 
-    def __init__(self, files, exists, include_dirs, defines, max_depth=40):
+    def __init__(self, files, exists, include_dirs, defines, max_depth=40, canon=os.path.normpath):
+        self.canon = canon                  # how a spelled path names a physical file
         self.files = files                  # abs path -> list of Line (files the model knows the text of)
         self.exists = exists                # callable abs path -> bool (regular file)
         self.dirs = list(include_dirs)
@@ -140,7 +141,7 @@ class Ref:
 
     def resolve(self, name, this_dir, angle):
         for d in ([] if angle else [this_dir]) + self.dirs:
-            c = os.path.normpath(os.path.join(d, name))
+            c = self.canon(os.path.join(d, name))
             if self.exists(c):
                 return c
         return None
@@ -218,9 +219,10 @@ class Ref:
             raise Invalid("unterminated conditional")
 
 
-def run_tu(files, exists, entry_file, include_dirs, defines, forced=()):
+def run_tu(files, exists, entry_file, include_dirs, defines, forced=(), canon=os.path.normpath):
     """-> Ref after processing the forced includes (in order) and then the file"""
-    r = Ref(files, exists, include_dirs, defines)
+    r = Ref(files, exists, include_dirs, defines, canon=canon)
+    entry_file = canon(entry_file)
     for inc in forced:
         tgt = r.resolve(inc, os.path.dirname(entry_file), False)
         if tgt is not None and tgt in files:
